@@ -146,7 +146,21 @@ def c07a(prog, R, rid="C07.a"):
             "with_moved does not put the moved (newer) runs in front of the destination level's runs (%s): an older table of the "
             "destination level is consulted first and its value shadows the newer one" % [short(c.sres) for c in ins], wm.where(),
             str([short(c.sres) for c in ins]))
-    r.floor(11)
+    # every transition hands the whole, unreordered list of a level's runs to optimize_runs and builds the level from its
+    # result: run order within a level is read precedence (newest first)
+    from rules.props.c06 import _chain_calls
+    REORD = re.compile(r"::(partition\w*|chain|rev|reverse|sort\w*|zip|skip\w*|take\w*|step_by|swap\w*|rotate_\w+)$")
+    for name in ("version::Version::with_dropped", "version::Version::with_merge", "version::Version::with_moved", "version::Version::with_new_l0_run"):
+        f = prog.need(name)
+        opt = [c for c in f.calls if c.sres == "version::optimize::optimize_runs"]
+        fr = [c for c in f.calls if c.sres == "version::Level::from_runs"]
+        bad = sorted({short(x.sres) for c in opt for x in _chain_calls(prog, f, c.args[0]) if REORD.search(x.sres or "")})
+        built = bool(fr) and all(any(x.sres == "version::optimize::optimize_runs" for x in _chain_calls(prog, f, c.args[0])) for c in fr
+                                 if not all(o.kind == "call" and o.extra.sres.endswith("Vec::new") for o in origins(f, c.args[0])))
+        r.check(bool(opt) and not bad and built, "%s|a level is rebuilt from optimize_runs(all of its runs, in order)" % name,
+                "a transition reorders / splits the runs of a level (%s) or does not build the level from the result of optimize_runs: "
+                "an older run can end up in front of a newer one" % (bad or "level not built from optimize_runs"), f.where(), str(bad))
+    r.floor(15)
 
 
 def c07b(prog, R):
